@@ -1157,6 +1157,14 @@ fn oracle_c18(plan: &ResolvePlan, obs: &Observations) -> RunResult {
                 });
                 if exact {
                     bump(&mut res.stats, "probe.other_family_contacted_while_preferred_held_for_a_sibling_of_this_delegation");
+                    // ... and no server had been contacted at a preferred-family address
+                    // for this question before (so no sibling had been tried and failed)
+                    let tried_before = obs.trace[..i].iter().any(|p| {
+                        p.ctx == t.ctx && p.question == t.question && p.ip.is_ipv4() == pref_v4
+                    });
+                    if !tried_before {
+                        bump(&mut res.stats, "probe.other_family_contacted_first_while_preferred_held_for_a_sibling_of_this_delegation");
+                    }
                 }
             }
             if in_cache || in_local || in_hand {
